@@ -15,6 +15,7 @@ import (
 	"os"
 	"path/filepath"
 	"strings"
+	"sync"
 	"time"
 
 	"github.com/Logicalis/asn1"
@@ -39,10 +40,15 @@ type Dgram struct {
 }
 
 type Input struct {
-	Part  string  `json:"part"` // svc | rate | consts
+	Part  string  `json:"part"` // svc | rate | consts | conc
 	Svc   string  `json:"svc,omitempty"`
 	H     []Dgram `json:"h,omitempty"`
 	Times []int64 `json:"times,omitempty"` // rate: clock readings in ns relative to a base
+	// conc: the same payload from each of Srcs, N datagrams handled concurrently, then After one by one
+	Payload hx.B     `json:"payload,omitempty"`
+	Srcs    []string `json:"srcs,omitempty"`
+	N       int      `json:"n,omitempty"`
+	After   int      `json:"after,omitempty"`
 }
 
 type DObs struct {
@@ -54,9 +60,35 @@ type DObs struct {
 	Alone   []int `json:"alone"`             // replies to the same datagram when only this source's datagrams are replayed on a fresh instance
 }
 
-type recChan struct{ evs []event.Event }
+type recChan struct {
+	mu  sync.Mutex
+	evs []event.Event
+}
 
-func (c *recChan) Send(e event.Event) { c.evs = append(c.evs, e) }
+func (c *recChan) Send(e event.Event) {
+	c.mu.Lock()
+	c.evs = append(c.evs, e)
+	c.mu.Unlock()
+}
+
+func (c *recChan) reset() {
+	c.mu.Lock()
+	c.evs = c.evs[:0]
+	c.mu.Unlock()
+}
+
+// sawRequest: an snmp request event (sent just before Allow) was recorded
+func (c *recChan) sawRequest() bool {
+	c.mu.Lock()
+	defer c.mu.Unlock()
+	for _, e := range c.evs {
+		switch e.Get("type") {
+		case "get-request", "get-next-request", "set-request":
+			return true
+		}
+	}
+	return false
+}
 
 func (d Dgram) raddr() *net.UDPAddr {
 	ip := net.ParseIP(d.IP)
@@ -128,7 +160,7 @@ func runHistory(svc string, h []Dgram) ([]DObs, string) {
 				return len(b), nil
 			},
 		}
-		ch.evs = ch.evs[:0]
+		ch.reset()
 		done := make(chan bool, 1)
 		var herr error
 		t := time.Since(start).Nanoseconds()
@@ -151,12 +183,7 @@ func runHistory(svc string, h []Dgram) ([]DObs, string) {
 		}
 		obs[i].T = t
 		obs[i].Replies = append([]int{}, replies...)
-		for _, e := range ch.evs {
-			switch e.Get("type") {
-			case "get-request", "get-next-request", "set-request":
-				obs[i].Reached = true
-			}
-		}
+		obs[i].Reached = ch.sawRequest()
 		if wrongDest {
 			return obs, fmt.Sprintf("datagram %d: a response was addressed to another address than the request's source", i)
 		}
@@ -644,9 +671,14 @@ func corpus() []Input {
 func main() {
 	logging.SetBackend(logging.NewLogBackend(ioutil.Discard, "", 0))
 	child := flag.Bool("c10screen", false, "internal: screening child")
+	concChildFlag := flag.Bool("c10conc", false, "internal: child handling concurrent bursts")
 	o := hx.ParseArgs()
 	if *child {
 		screenChild()
+		return
+	}
+	if *concChildFlag {
+		concChild()
 		return
 	}
 	r := hx.NewRand(o.Seed)
@@ -670,12 +702,18 @@ func main() {
 	} else {
 		inputs = append(inputs, Input{Part: "consts"})
 		inputs = append(inputs, corpus()...)
-		per, maxLen, nrate := 170, 200, 250
+		inputs = append(inputs, fieldCorpus(r)...)
+		per, maxLen, nrate, nconc, nsrc := 150, 200, 250, 6, 60
 		switch o.Tier {
 		case "thorough":
-			per, nrate = 1700, 2500
+			per, nrate, nconc, nsrc = 1600, 2500, 40, 80
 		case "search":
-			per, nrate = 500, 600
+			per, nrate, nconc, nsrc = 500, 600, 15, 80
+		}
+		for i := 0; i < nconc; i++ {
+			for _, svc := range []string{"tftp", "memcached", "snmp", "counterstrike"} {
+				inputs = append(inputs, genConc(svc, r, nsrc))
+			}
 		}
 		for i := 0; i < per; i++ {
 			for _, svc := range []string{"tftp", "memcached", "snmp", "counterstrike"} {
@@ -688,34 +726,56 @@ func main() {
 		}
 	}
 
-	distS, distR := map[string]int{}, map[string]int{}
+	distS, distR, distX := map[string]int{}, map[string]int{}, map[string]int{}
+	var concCases []hx.Case
 	extra := map[string]interface{}{"interval_ns": interval, "burst": burst}
 	// snmp payloads are first handled in a child process (see screen.go): one that ends
 	// the process is not run here; its case is reported as a crash
 	fatalCase := map[int]string{}
+	type spRef struct{ input, dgram int }
 	var sp [][]byte
-	for _, in := range inputs {
-		if in.Part == "svc" && in.Svc == "snmp" {
-			for _, d := range in.H {
-				sp = append(sp, d.Payload)
+	var refs []spRef
+	for i, in := range inputs {
+		if in.Svc != "snmp" {
+			continue
+		}
+		switch in.Part {
+		case "svc":
+			for j, d := range in.H {
+				sp, refs = append(sp, d.Payload), append(refs, spRef{i, j})
 			}
+		case "conc":
+			sp, refs = append(sp, in.Payload), append(refs, spRef{i, 0})
 		}
 	}
 	if len(sp) > 0 {
-		fatal := screen(sp)
-		n := 0
-		for i := range inputs {
-			if inputs[i].Part != "svc" || inputs[i].Svc != "snmp" {
+		for n, bad := range screen(sp) {
+			if !bad {
 				continue
 			}
-			for j, d := range inputs[i].H {
-				if fatal[n] {
-					distS["snmp:process-fatal-payload"]++
-					if _, ok := fatalCase[i]; !ok {
-						fatalCase[i] = fmt.Sprintf("datagram %d (%x) ends the whole process (seen in a child process with a 4 GiB address-space limit)", j, []byte(d.Payload))
-					}
+			distS["snmp:process-fatal-payload"]++
+			if _, ok := fatalCase[refs[n].input]; !ok {
+				fatalCase[refs[n].input] = fmt.Sprintf("datagram %d (%x) ends the whole process (seen in a child process with a 4 GiB address-space limit)", refs[n].dgram, sp[n])
+			}
+		}
+	}
+	// the concurrent bursts run in a child process (see conc.go)
+	concRes := map[int]concResult{}
+	{
+		var ins []Input
+		var idx []int
+		for i, in := range inputs {
+			if in.Part == "conc" {
+				if why, bad := fatalCase[i]; bad {
+					concRes[i] = concResult{Obs: make([]ConcObs, len(in.Srcs)), Crash: why}
+				} else {
+					ins, idx = append(ins, in), append(idx, i)
 				}
-				n++
+			}
+		}
+		if len(ins) > 0 {
+			for n, r := range runConcAll(ins) {
+				concRes[idx[n]] = r
 			}
 		}
 	}
@@ -786,6 +846,24 @@ func main() {
 			}
 			rateCases = append(rateCases, hx.Case{ID: id, Kind: "rate", Input: in, Obs: got,
 				Coq: fmt.Sprintf("CR (mkR %s %s %s)", hx.CoqN(uint64(id)), hx.CoqList(ts, "Z"), hx.CoqList(gs, "bool"))})
+		case "conc":
+			id := len(concCases)
+			obs, crash := concRes[inIdx].Obs, concRes[inIdx].Crash
+			distX[in.Svc]++
+			distX[fmt.Sprintf("goroutines=%d", in.N)]++
+			for _, o := range obs {
+				switch t := o.Conc + o.After; {
+				case t == 0:
+					distX["source:no-response"]++
+				case t < 4:
+					distX["source:responses<burst"]++
+				case t == 4:
+					distX["source:responses=burst"]++
+				default:
+					distX["source:responses>burst"]++
+				}
+			}
+			concCases = append(concCases, hx.Case{ID: id, Kind: "conc-" + in.Svc, Input: in, Obs: obs, Crash: crash, Coq: coqConcCase(id, in, obs)})
 		default:
 			hx.Fatal("unknown part %q", in.Part)
 		}
@@ -797,5 +875,8 @@ func main() {
 	}
 	if len(rateCases) > 0 || o.Only == "" {
 		hx.Write(o, "C10", "rate", header, "case", rateCases, distR, nil, 150)
+	}
+	if len(concCases) > 0 || o.Only == "" {
+		hx.Write(o, "C10", "conc", header, "case", concCases, distX, nil, 100)
 	}
 }
